@@ -371,7 +371,7 @@ def run(tier: str, only=None) -> int:
                     continue
                 P = {"transport": tr, "backend": "thread", "channels": chans, "size": size, "sendall_splits": True}
                 rep.sample({"sub": name, "params": {k: v for k, v in P.items() if k != "channels"}})
-                big = pname in ("up4", "both")
+                big = pname in ("up4", "both", "two-chan")
                 if tr == "socket":
                     bounds = {"ps": 1, "env": 1, "free": 0} if tier == "quick" else ({"ps": 1, "env": 1, "free": 1} if big else {"ps": 2, "env": 1, "free": 1})
                 else:
